@@ -51,6 +51,9 @@ CONSTANTS
 NP == 2                          \* two primitive types: id 1 = p1 (int64), id 2 = p2 (string)
 TypeNames == {"m", "n"}
 NoT == [k |-> "none", s |-> <<>>, c |-> <<>>]
+\* TLC evaluates [j \in 1..n |-> e] lazily on every application; concatenation
+\* forces it into an explicit tuple once.
+Eager(f) == f \o <<>>
 
 \* ------------------------------------------------------------------ terms
 \* An (ordered) type term: k kind, s strings (field names / enum symbols /
@@ -116,18 +119,18 @@ SortFrom(acc, seq, i) ==
   IF i > Len(seq) THEN acc
   ELSE LET j == InsPos(acc, seq[i], Len(acc)) IN
        SortFrom(SubSeq(acc, 1, j) \o <<seq[i]>> \o SubSeq(acc, j + 1, Len(acc)), seq, i + 1)
-SortT(seq) == LET r == SortFrom(<<>>, [j \in 1..Len(seq) |-> [id |-> 0, t |-> seq[j]]], 1) IN
-              [j \in 1..Len(r) |-> r[j].t]
+SortT(seq) == LET r == SortFrom(<<>>, Eager([j \in 1..Len(seq) |-> [id |-> 0, t |-> seq[j]]]), 1) IN
+              Eager([j \in 1..Len(r) |-> r[j].t])
 
 \* The term as a context that built it bottom-up stores it (unions sorted).
 RECURSIVE SortDeep(_)
-SortDeep(t) == LET kids == [j \in 1..Len(t.c) |-> SortDeep(t.c[j])] IN
+SortDeep(t) == LET kids == Eager([j \in 1..Len(t.c) |-> SortDeep(t.c[j])]) IN
                [t EXCEPT !.c = IF t.k = "union" THEN SortT(kids) ELSE kids]
 
 \* Structure proper: union members form a set.
 RECURSIVE Norm(_)
 Norm(t) == [k |-> t.k, s |-> t.s,
-            c |-> IF t.k = "union" THEN <<>> ELSE [j \in 1..Len(t.c) |-> Norm(t.c[j])],
+            c |-> IF t.k = "union" THEN <<>> ELSE Eager([j \in 1..Len(t.c) |-> Norm(t.c[j])]),
             m |-> IF t.k = "union" THEN {Norm(t.c[j]) : j \in 1..Len(t.c)} ELSE {}]
 
 \* ------------------------------------ zed.appendTypeValue (type.go) + decoder
@@ -192,7 +195,34 @@ Ids(c) == (NP + 1)..(NP + Len(c.byID))
 RECURSIVE OS(_, _)
 OS(nodes, id) == IF id <= NP THEN P(id)
                  ELSE LET nd == nodes[id - NP] IN
-                      [k |-> nd.k, s |-> nd.s, c |-> [j \in 1..Len(nd.c) |-> OS(nodes, nd.c[j])]]
+                      [k |-> nd.k, s |-> nd.s, c |-> Eager([j \in 1..Len(nd.c) |-> OS(nodes, nd.c[j])])]
+
+\* zed.appendTypeValue applied to a type of the context: the same walk as Ser
+\* but over the stored types, following pointers; `previous == t.Type` is
+\* pointer equality, i.e. equality of ids.  d: name -> id of the inner type
+\* last bound (0 = none).
+NoIdDefs == [x \in TypeNames |-> 0]
+RECURSIVE SerId(_, _, _), SerIdKids(_, _, _, _, _)
+SerId(nodes, id, d) ==
+  IF id <= NP THEN [out |-> P(id).s, d |-> d]
+  ELSE LET nd == nodes[id - NP] IN
+    CASE nd.k = "named" ->
+           IF d[nd.s[1]] = nd.c[1] THEN [out |-> <<"ref", nd.s[1]>>, d |-> d]
+           ELSE LET r == SerId(nodes, nd.c[1], d) IN
+                [out |-> <<"def", nd.s[1]>> \o r.out, d |-> [r.d EXCEPT ![nd.s[1]] = nd.c[1]]]
+      [] nd.k = "rec" -> LET r == SerIdKids(nodes, nd.c, nd.s, d, 1) IN
+           [out |-> <<"rec", ToString(Len(nd.c))>> \o r.out, d |-> r.d]
+      [] nd.k = "union" -> LET r == SerIdKids(nodes, nd.c, <<>>, d, 1) IN
+           [out |-> <<"union", ToString(Len(nd.c))>> \o r.out, d |-> r.d]
+      [] nd.k \in {"arr", "set", "err", "map"} -> LET r == SerIdKids(nodes, nd.c, <<>>, d, 1) IN
+           [out |-> <<nd.k>> \o r.out, d |-> r.d]
+      [] nd.k = "enum" -> [out |-> <<"enum", ToString(Len(nd.s))>> \o nd.s, d |-> d]
+SerIdKids(nodes, kids, names, d, i) ==
+  IF i > Len(kids) THEN [out |-> <<>>, d |-> d]
+  ELSE LET r == SerId(nodes, kids[i], d)
+           rest == SerIdKids(nodes, kids, names, r.d, i + 1) IN
+       [out |-> (IF names # <<>> THEN <<names[i]>> ELSE <<>>) \o r.out \o rest.out, d |-> rest.d]
+TVid(nodes, id) == SerId(nodes, id, NoIdDefs).out
 
 HasDup(s) == \E i, j \in 1..Len(s) : i < j /\ s[i] = s[j]        \* duplicateField
 
@@ -201,7 +231,7 @@ HasDup(s) == \E i, j \in 1..Len(s) : i < j /\ s[i] = s[j]        \* duplicateFie
 \* enterWithLock.  LookupTypeNamed also (re)binds the name in both cases.
 \* LookupTypeRecord checks for duplicate fields only on a miss.
 LookupNode(c, nd) ==
-  LET key == TV(OS(Append(c.byID, nd), NP + Len(c.byID) + 1))
+  LET key == TVid(Append(c.byID, nd), NP + Len(c.byID) + 1)
       hit == key \in DOMAIN c.toType
       id  == IF hit THEN c.toType[key] ELSE NP + Len(c.byID) + 1
       bind(t) == IF nd.k = "named" THEN [t EXCEPT ![nd.s[1]] = id] ELSE t IN
@@ -215,8 +245,8 @@ LookupNode(c, nd) ==
 
 \* LookupTypeUnion sorts the caller's slice by CompareTypes (stable) first.
 SortIds(c, ids) ==
-  LET r == SortFrom(<<>>, [j \in 1..Len(ids) |-> [id |-> ids[j], t |-> OS(c.byID, ids[j])]], 1) IN
-  [j \in 1..Len(r) |-> r[j].id]
+  LET r == SortFrom(<<>>, Eager([j \in 1..Len(ids) |-> [id |-> ids[j], t |-> OS(c.byID, ids[j])]]), 1) IN
+  Eager([j \in 1..Len(r) |-> r[j].id])
 
 PrimId(tok) == IF tok = "p1" THEN 1 ELSE 2
 
@@ -281,29 +311,45 @@ Targets == CASE Family = "level1" -> Level1
 Calls == [m : Methods \ {"tdef"}, ot : Targets, nm : {""}]
          \cup (IF "tdef" \in Methods THEN [m : {"tdef"}, ot : {NoT}, nm : TypeNames] ELSE {})
 
-FindId(c, nt) == LET S == {i \in Ids(c) : Norm(OS(c.byID, i)) = nt} IN IF S = {} THEN 0 ELSE Min(S)
-KidId(c, t) == IF t.k = "prim" THEN PrimId(t.s[1]) ELSE FindId(c, Norm(t))
+\* Per-call constants (evaluated once by TLC): the term as its source context
+\* stores it, its serialization/decoder program, its structure.
+InfoL == [call \in Calls |->
+           IF call.m = "tdef" THEN [sd |-> NoT, ser |-> Ser(P(1), NoDefs), raw |-> Ser(P(1), NoDefs), norm |-> NoT, kids |-> <<>>]
+           ELSE [sd   |-> SortDeep(call.ot),
+                 ser  |-> Ser(SortDeep(call.ot), NoDefs),
+                 raw  |-> Ser(call.ot, NoDefs),
+                 norm |-> Norm(call.ot),
+                 kids |-> Eager([j \in 1..Len(call.ot.c) |-> Norm(call.ot.c[j])])]]
+
+Info == InfoL @@ <<>>          \* force: one evaluation per call, not per use
+
+\* nrm = [i \in Ids(c) |-> Norm(OS(c.byID, i))], computed once per state.
+NormIds(c) == [i \in Ids(c) |-> Norm(OS(c.byID, i))] @@ <<>>
+FindId(nrm, nt) == LET S == {i \in DOMAIN nrm : nrm[i] = nt} IN IF S = {} THEN 0 ELSE Min(S)
+KidId(nrm, nt) == IF nt.k = "prim" THEN PrimId(nt.s[1]) ELSE FindId(nrm, nt)
 
 \* A call is enabled when the caller can hold the arguments it passes.
-CallEnabled(c, call) ==
-  CASE call.m = "fields" -> call.ot.k # "prim" /\ \A j \in 1..Len(call.ot.c) : KidId(c, call.ot.c[j]) # 0
-    [] call.m = "tval"   -> FindId(c, Norm(call.ot)) # 0
-    [] call.m = "raw"    -> SortDeep(call.ot) # call.ot      \* a non-canonical encoding exists
+CallEnabled(nrm, call) ==
+  CASE call.m = "fields" -> \A j \in 1..Len(Info[call].kids) : KidId(nrm, Info[call].kids[j]) # 0
+    [] call.m = "tval"   -> FindId(nrm, Info[call].norm) # 0
+    [] call.m = "raw"    -> Info[call].sd # call.ot          \* a non-canonical encoding exists
     [] OTHER -> TRUE
 
-\* The program of a call; b = number of this call (names its caller buffer).
-CallProg(c, call, b) ==
-  LET t == call.ot IN
+\* The smallest caller-buffer name not in use.
+FreeBuf(c, lv) == Min((1..(MaxCalls + 1)) \ (lv \cup {c.toValue[i].o : i \in Ids(c)}))
+
+\* The program of a call; b names the caller's buffer.
+CallProg(nrm, call, b) ==
+  LET t == call.ot  inf == Info[call] IN
   CASE call.m = "fields" ->
-         [j \in 1..Len(t.c) |-> Ins("pushid", <<>>, KidId(c, t.c[j]))] \o <<Ins(t.k, t.s, Len(t.c))>>
-    [] call.m = "decode" -> Ser(SortDeep(t), NoDefs).prog
-    [] call.m = "value"  -> LET r == Ser(SortDeep(t), NoDefs) IN
-         <<Ins("check", r.out, 0)>> \o r.prog \o <<Ins("enter", r.out, b)>>
-    [] call.m = "translate" -> LET r == Ser(SortDeep(t), NoDefs) IN      \* fresh heap slice
-         <<Ins("check", r.out, 0)>> \o r.prog \o <<Ins("enter", r.out, -1)>>
-    [] call.m = "raw"    -> LET r == Ser(t, NoDefs) IN                   \* members as listed
-         <<Ins("check", r.out, 0)>> \o r.prog \o <<Ins("enter", r.out, b)>>
-    [] call.m = "tval"   -> <<Ins("tval", <<>>, FindId(c, Norm(t)))>>
+         Eager([j \in 1..Len(t.c) |-> Ins("pushid", <<>>, KidId(nrm, inf.kids[j]))]) \o <<Ins(t.k, t.s, Len(t.c))>>
+    [] call.m = "decode" -> inf.ser.prog
+    [] call.m = "value"  -> <<Ins("check", inf.ser.out, 0)>> \o inf.ser.prog \o <<Ins("enter", inf.ser.out, b)>>
+    [] call.m = "translate" ->                                 \* EncodeTypeValue: a fresh heap slice
+         <<Ins("check", inf.ser.out, 0)>> \o inf.ser.prog \o <<Ins("enter", inf.ser.out, -1)>>
+    [] call.m = "raw"    ->                                    \* union members as listed
+         <<Ins("check", inf.raw.out, 0)>> \o inf.raw.prog \o <<Ins("enter", inf.raw.out, b)>>
+    [] call.m = "tval"   -> <<Ins("tval", <<>>, FindId(nrm, inf.norm))>>
     [] call.m = "tdef"   -> <<Ins("tdef", <<call.nm>>, 0)>>
 
 \* ------------------------------------------------------------- one section
@@ -342,14 +388,21 @@ Exec(c, pr0, st0, ld, decoding) ==
                                        !.toType = (ins.s :> typ) @@ @],
                       !.t = IF old.b # ins.s THEN {"noncanon"} ELSE {}]
 
+\* A whole call without preemption (Gran = "call").
+RECURSIVE RunAll(_, _, _, _, _, _, _)
+RunAll(c, pr, st, ld, decoding, race, t) ==
+  LET r == Exec(c, pr, st, ld, decoding) IN
+  IF r.pr = <<>> THEN [r EXCEPT !.race = race \/ r.race, !.t = t \cup r.t]
+  ELSE RunAll(r.c, r.pr, r.st, r.ld, decoding, race \/ r.race, t \cup r.t)
+
 \* --------------------------------------------------------------- behaviour
 Snap(c) == [nodes |-> c.byID,
-            tv   |-> [i \in 1..Len(c.byID) |-> c.toValue[i + NP].b],
-            own  |-> [i \in 1..Len(c.byID) |-> c.toValue[i + NP].o],
+            tv   |-> Eager([i \in 1..Len(c.byID) |-> c.toValue[i + NP].b]),
+            own  |-> Eager([i \in 1..Len(c.byID) |-> c.toValue[i + NP].o]),
             defs |-> c.typedefs]
 
-Emit(hh, c) == CASE PrintMode = "edge" -> PrintT(ToJson([h |-> hh, cx |-> Snap(c)]))
-                 [] OTHER -> TRUE
+Emit(hh, c, tt) == CASE PrintMode = "edge" -> PrintT(ToJson([h |-> hh, cx |-> Snap(c), taint |-> tt]))
+                     [] OTHER -> TRUE
 
 Init ==
   /\ cx = EmptyCx
@@ -360,25 +413,43 @@ Init ==
   /\ ncalls = 0 /\ live = {} /\ taint = {} /\ turn = 0 /\ h = <<>>
 
 Idle(p) == cur[p] = NoCall
+UsesBuf(call) == call.m \in {"value", "raw"}
+
+\* Gran = "call": a complete call as one step (sequential histories).
+Call(p, call, nrm) ==
+  /\ Gran = "call" /\ ncalls < MaxCalls
+  /\ CallEnabled(nrm, call)
+  /\ LET b == IF UsesBuf(call) THEN FreeBuf(cx, live) ELSE 0
+         r == RunAll(cx, CallProg(nrm, call, b), <<>>, [x \in TypeNames |-> 0], call.m # "fields", FALSE, {})
+         ev == [e |-> "call", p |-> p, m |-> call.m, ot |-> call.ot, nm |-> call.nm, b |-> b,
+                fin |-> TRUE, r |-> r.st[Len(r.st)], rb |-> r.rb, racy |-> r.race] IN
+     /\ cx' = r.c
+     /\ ncalls' = ncalls + 1
+     /\ live' = IF UsesBuf(call) THEN live \cup {b} ELSE live
+     /\ taint' = taint \cup r.t
+     /\ h' = Append(h, ev)
+     /\ Emit(h', cx', taint')
+  /\ UNCHANGED <<prog, stk, cur, ldefs, racy, turn>>
 
 \* Invocation: no shared state is touched.
-Start(p, call) ==
-  /\ turn = 0 /\ Idle(p) /\ ncalls < MaxCalls
-  /\ CallEnabled(cx, call)
+Start(p, call, nrm) ==
+  /\ Gran # "call" /\ turn = 0 /\ Idle(p) /\ ncalls < MaxCalls
+  /\ CallEnabled(nrm, call)
+  /\ LET b == IF UsesBuf(call) THEN FreeBuf(cx, live) ELSE 0 IN
+     /\ prog' = [prog EXCEPT ![p] = CallProg(nrm, call, b)]
+     /\ live' = IF UsesBuf(call) THEN live \cup {b} ELSE live
+     /\ h' = Append(h, [e |-> "start", p |-> p, m |-> call.m, ot |-> call.ot, nm |-> call.nm, b |-> b])
   /\ ncalls' = ncalls + 1
-  /\ prog' = [prog EXCEPT ![p] = CallProg(cx, call, ncalls + 1)]
   /\ stk' = [stk EXCEPT ![p] = <<>>]
   /\ cur' = [cur EXCEPT ![p] = call]
   /\ ldefs' = [ldefs EXCEPT ![p] = [x \in TypeNames |-> 0]]
   /\ racy' = [racy EXCEPT ![p] = FALSE]
-  /\ live' = IF call.m \in {"value", "raw"} THEN live \cup {ncalls + 1} ELSE live
   /\ turn' = IF Gran = "hook" THEN p ELSE 0
-  /\ h' = Append(h, [e |-> "start", p |-> p, m |-> call.m, ot |-> call.ot, nm |-> call.nm, b |-> ncalls + 1])
   /\ UNCHANGED <<cx, taint>>
 
 \* One mutex section of process p.
 Step(p) ==
-  /\ turn \in {0, p} /\ ~Idle(p)
+  /\ Gran # "call" /\ turn \in {0, p} /\ ~Idle(p)
   /\ LET r == Exec(cx, prog[p], stk[p], ldefs[p], cur[p].m # "fields")
          fin == r.pr = <<>>
          \* the real code can be parked only in the hook after a NameDef of a decode
@@ -395,7 +466,7 @@ Step(p) ==
      /\ taint' = taint \cup r.t
      /\ turn' = IF yield THEN 0 ELSE p
      /\ h' = Append(h, ev)
-     /\ Emit(h', cx')
+     /\ Emit(h', cx', taint')
   /\ UNCHANGED <<ncalls, live>>
 
 \* The caller reuses a byte slice it handed to LookupByValue: every toValue
@@ -406,11 +477,12 @@ ReuseBuffer(b) ==
   /\ LET hit == {i \in Ids(cx) : cx.toValue[i].o = b} IN
      /\ cx' = [cx EXCEPT !.toValue = [i \in DOMAIN @ |-> IF i \in hit THEN [@[i] EXCEPT !.b = <<"garbage">>] ELSE @[i]]]
      /\ taint' = IF hit # {} THEN taint \cup {"alias"} ELSE taint
-  /\ h' = Append(h, [e |-> "reuse", b |-> b])
-  /\ Emit(h', cx')
+  /\ h' = Append(h, [e |-> "reuse", b |-> b, fin |-> FALSE])
+  /\ Emit(h', cx', taint')
   /\ UNCHANGED <<prog, stk, cur, ldefs, racy, ncalls, turn>>
 
-Next == \/ \E p \in Procs, call \in Calls : Start(p, call)
+Next == LET nrm == NormIds(cx) IN
+        \/ \E p \in Procs, call \in Calls : Call(p, call, nrm) \/ Start(p, call, nrm)
         \/ \E p \in Procs : Step(p)
         \/ \E b \in live : ReuseBuffer(b)
 
@@ -443,14 +515,14 @@ UnionOrderInsensitive ==
 \* value.
 ValuePure ==
   (taint \cap {"alias", "noncanon"} = {}) =>
-     \A i \in Ids(cx) : cx.toValue[i].b = TV(OS(cx.byID, i))
+     \A i \in Ids(cx) : cx.toValue[i].b = TVid(cx.byID, i)
 \* The part that holds even with the defects: bytes the context owns are right.
-OwnedPure == \A i \in Ids(cx) : cx.toValue[i].o = 0 => cx.toValue[i].b = TV(OS(cx.byID, i))
+OwnedPure == \A i \in Ids(cx) : cx.toValue[i].o = 0 => cx.toValue[i].b = TVid(cx.byID, i)
 
 \* Every key of toType denotes its type (decoding the key yields the type).
 KeysDenote ==
   (taint \cap {"noncanon", "race"} = {}) =>
-     \A key \in DOMAIN cx.toType : TV(OS(cx.byID, cx.toType[key])) = key
+     \A key \in DOMAIN cx.toType : TVid(cx.byID, cx.toType[key]) = key
 
 \* RoundTrip / DecodeCorrect: every finished call that denotes a type returned
 \* a type of exactly that structure -- by fields, by value, by translation and
@@ -460,15 +532,15 @@ Denotes(ev) ==
   \/ ~ev.fin \/ ev.m \in {"tval", "tdef"} \/ ev.racy
   \/ (ev.m = "fields" /\ ev.r = 0 /\ HasDup(ev.ot.s))
   \/ (ev.r \in Ids(cx) /\ Norm(OS(cx.byID, ev.r)) = Norm(ev.ot))
-DecodeCorrect ==
-  \A i \in 1..Len(h) : h[i].e = "step" => Denotes(h[i])
+\* byID only grows, so it suffices to look at the event just appended.
+DecodeCorrect == (h # <<>> /\ h[Len(h)].e \in {"step", "call"}) => Denotes(h[Len(h)])
 
 \* LookupTypeValue returns the serialization of the structure.
 TvalCorrect ==
-  (taint \cap {"alias", "noncanon"} = {}) =>
-     \A i \in 1..Len(h) : (h[i].e = "step" /\ h[i].m = "tval") => h[i].rb = TV(OS(cx.byID, h[i].r))
+  (taint \cap {"alias", "noncanon"} = {} /\ h # <<>> /\ h[Len(h)].e \in {"step", "call"} /\ h[Len(h)].m = "tval") =>
+        h[Len(h)].rb = TVid(cx.byID, h[Len(h)].r)
 
 \* Complete behaviours for PrintMode = "final".
 Quiescent == ncalls = MaxCalls /\ \A p \in Procs : Idle(p)
-FinalPrint == (PrintMode = "final" /\ Quiescent) => PrintT(ToJson([h |-> h, cx |-> Snap(cx)]))
+FinalPrint == (PrintMode = "final" /\ Quiescent) => PrintT(ToJson([h |-> h, cx |-> Snap(cx), taint |-> taint]))
 =============================================================================
